@@ -426,6 +426,8 @@ def ref_adapt(kind, x):
     ty, rx, _, _ = _TEMPORAL[k]
     if isinstance(x, ty):
         return x                 # "if value is an instance of type_, returns it unchanged" (subclass instances too)
+    if type(x) in (bytes, bytearray):
+        raise _Unadaptable()     # not a string, not a type_: unadaptable (repair 6d1d953 of KF-C04-e; bytes raised TypeError before)
     if _textlike(x):
         raise _Undetermined()
     if isinstance(x, str):
@@ -971,8 +973,8 @@ class C04(Property):
         "for a str subclass, int(x) / float(x) / the base-type value for numeric kinds, the plain date / naive time for temporal kinds, "
         "else an object seen only through str(x) and bool(x) (the model's `other`).  The subclass identity and a tzinfo of a STORED "
         "value / raw are not visible to the model (scalars_g6.model_view); the oracle sees and asserts them on the real objects.  Where no "
-        "projection has the same documented outcome (evidence tag exotic-oracle-only, about 10% of the exotic cases: text-likes that are "
-        "no str handed to Boolean / Temporal kinds, bytes whose failure text is their repr) the case runs through the real code and the "
+        "projection has the same documented outcome (evidence tag exotic-oracle-only, about 8% of the exotic cases: UserString / bytes / "
+        "bytearray handed to Boolean kinds, UserString handed to Temporal kinds) the case runs through the real code and the "
         "oracle only",
     ]
     assumptions = [
@@ -985,11 +987,12 @@ class C04(Property):
         "type_(value), an instance of type_ exactly, text by the format; Boolean - synonyms for str instances, bool(value) for non-text; "
         "temporals - an instance of type_ (subclass instances too) is returned unchanged, a str is parsed, anything else is unadaptable.  NOT "
         "determined by the documentation and NOT asserted (flag / value / text; 'never raises', raw, signal and re-set clauses still are): "
-        "whether a UserString / bytes / bytearray counts as 'text' for Boolean ('if value is text') and Temporal ('if a string') - on HEAD "
-        "they are non-text (Boolean: bool(x); Temporal: unadaptable, except bytes: KF-C04-e)",
-        "bytes are outside the property's quantifier (None/text/number/boolean/native-temporal): Date().set(b'2020-01-02') raises TypeError on HEAD "
-        "(recorded as KF-C04-e with a class predicate, c04_findings.json); JoinedString().set(b'a,b') raises too (not generated: tree cases have "
-        "no bytes); Integer().set(b' 12 ') gives 12 as type_(value) does",
+        "whether a UserString / bytes / bytearray counts as 'text' for Boolean ('if value is text') and whether a UserString does for "
+        "Temporal ('if a string') - on HEAD they are non-text (Boolean: bool(x); Temporal: unadaptable)",
+        "bytes / bytearray handed to Date / Time / DateTime (also under Enum / Constrained) are unadaptable: flag False, value None, text str(obj) "
+        "as Scalar.set documents for a rejected non-text input; asserted, with the never-raises clause (KF-C04-e, TypeError from the text "
+        "pattern, repaired in /repo 6d1d953; its witness is a corpus regression case).  JoinedString().set(b'a,b') still raises (not "
+        "generated: tree cases have no bytes); Integer().set(b' 12 ') gives 12 as type_(value) does",
         "re-set clause 'the same .value': compared as values of the base type (a date subclass instance equals the plain date with the same "
         "fields); an aware time differs from the naive time its text reads back as (filed under KF-C04-b: the text drops the offset)",
         "a None value has text '' by documentation; the literal value clause for None is checked and fails for the kinds that adapt '' "
@@ -1079,8 +1082,13 @@ class C04(Property):
             scalar_case({"k": "boolean_default"}, collections.UserString("off")),
             scalar_case({"k": "date", "strip": True}, collections.UserString("2020-01-02")),
             scalar_case({"k": "boolean_default"}, S.TextSub("off", "on")),
-            # KF-C04-e: bytes handed to a Temporal raise TypeError (str pattern on bytes)
+            # fixed 6d1d953 (KF-C04-e): bytes handed to a Temporal raised TypeError (str pattern on bytes); now unadaptable:
+            # False, value None, u = str(obj)
             scalar_case({"k": "date", "strip": True}, b"2020-01-02"),
+            scalar_case({"k": "time", "strip": False}, b" 03:04:05 "),
+            scalar_case(K_con({"k": "datetime", "strip": True}, "always"), b"2020-01-02 03:04:05"),
+            scalar_case(K_enum({"k": "date", "strip": True}, [datetime.date(2020, 1, 2), None]), b"2020-01-02"),
+            scalar_case({"k": "date", "strip": True}, bytearray(b"2020-01-02")),
         ]
         str_f = {"s": "scalar", "kind": K_string(True)}
         int_f = {"s": "scalar", "kind": K_int(True)}
@@ -1142,8 +1150,6 @@ class C04(Property):
                       S.IntSub(1, " one "), S.IntSub(0, ""), S.int_enum(2), S.FloatSub(1.0, "1"), S.DecSub("1", " 1"),
                       fractions.Fraction(1, 2), S.DateSub(2020, 1, 2, " 2020-01-02 "), datetime.datetime(2020, 1, 2, 3, 4, 5),
                       datetime.time(1, 2, 3, tzinfo=datetime.timezone.utc), b" 1 ", bytearray(b"on"), S.Other(" 1\x85", True)]:
-                if type(x) is bytes and S.base_kind(kind)["k"] in ("date", "time", "datetime"):
-                    continue            # KF-C04-e (one corpus witness; generated cases reach it too)
                 yield scalar_case(kind, x)
 
     exhaustive_note = ("all 680 Nd characters as Integer text, every Nd decade inside a Date and a Time text, all 29 whitespace "
@@ -1376,12 +1382,6 @@ class C04(Property):
                     and failure.get("culprit_huge")
                     and failure.get("site") in ("Scalar.set", "String.adapt", "Number.serialize")):
                 return "KF-C04-a"
-            # KF-C04-e: `bytes` handed to a Date / Time / DateTime (bare or inside Enum / Constrained): Temporal.adapt sends
-            # them to a str regex
-            if (case["mode"] == "scalar" and failure.get("observed") == "TypeError" and failure.get("site") == "Temporal.adapt"
-                    and "bytes-like" in failure.get("message", "") and (case["x"] or {}).get("t") == "bytes"
-                    and S.base_kind(case["kind"])["k"] in ("date", "time", "datetime")):
-                return "KF-C04-e"
             return None
         if case["mode"] == "tree":
             return None
